@@ -2,7 +2,9 @@ package main
 
 // C06 end to end: a real logic.Group with HTTP-TS, HLS and RTSP enabled.
 //
-//	c06.e2e <fragMs>:<hls 0|1>:<rtsp 0|1> <ev>;<ev>;...
+//	c06.e2e <fragMs>:<hls 0|1>:<rtsp 0|1>[:<wk 0|1>:<tsgop>] <ev>;<ev>;...
+//
+// wk = RtspConfig.OutWaitKeyFrameFlag, tsgop = HttptsConfig.GopNum (both 0 when left out).
 //
 // events
 //
@@ -16,8 +18,8 @@ package main
 // (Rtmp2MpegtsRemuxer.Dispose, hls.Muxer.Dispose).  hls.Clock shows the index of the
 // current event (ms); the HLS files go to a recording in-memory file-system layer.
 //
-// output: ts<id>=<bytes after the HTTP response header> | hls=<segment>,<segment>,... (file
-// contents in creation order) | sdp<id>=<bytes> rtp<id>=<channel>.<packet>,...  with sequence
+// output: ts<id>=<bytes after the HTTP response header> | hlsops=<op>;<op>;... (every call of hls.Muxer on the
+// file system layer, format of c10.run) | sdp<id>=<bytes> rtp<id>=<channel>.<packet>,...  with sequence
 // numbers relative to the first packet the subscriber got on the track and SSRC zeroed.
 
 import (
@@ -99,13 +101,18 @@ func init() {
 		var cfg logic.Config
 		cfg.HttptsConfig.Enable = true
 		cfg.HttptsConfig.GopNum = 0
+		wk := false
+		if len(cf) >= 5 {
+			wk = boolTok(cf[3])
+			cfg.HttptsConfig.GopNum = intTok(cf[4])
+		}
 		if boolTok(cf[1]) {
 			cfg.HlsConfig.Enable = true
 			cfg.HlsConfig.MuxerConfig = hls.MuxerConfig{OutPath: c10Root, FragmentDurationMs: intTok(cf[0]), FragmentNum: 1000, DeleteThreshold: 1000, CleanupMode: 0}
 		}
 		if boolTok(cf[2]) {
 			cfg.RtspConfig.Enable = true
-			cfg.RtspConfig.OutWaitKeyFrameFlag = false
+			cfg.RtspConfig.OutWaitKeyFrameFlag = wk
 		}
 		group := logic.NewGroup("live", "s", &cfg, logic.GroupOption{}, nopGroupObserver{})
 		pubConn := newFakeConn(nil)
@@ -158,15 +165,16 @@ func init() {
 			}
 		}
 
+		recv := c06RecvBufs{}
 		if a[1] != "-" {
 			for i, e := range strings.Split(a[1], ";") {
 				f := strings.Split(e, ":")
 				clk.ms = int64(i)
 				switch f[0] {
 				case "M":
-					group.OnReadRtmpAvMsg(c06Msg(f[1], f[2], f[3]))
+					recv.feed(c06Msg(f[1], f[2], f[3]), group.OnReadRtmpAvMsg)
 				case "I":
-					group.OnReadRtmpAvMsg(c06Msg("18", "0", f[3]))
+					recv.feed(c06Msg("18", "0", f[3]), group.OnReadRtmpAvMsg)
 				case "Jt":
 					c := &tsSub{id: numTok(f[1]), conn: newFakeConn(nil)}
 					c.s = httpts.NewSubSession(c.conn, base.UrlContext{}, false, "k")
@@ -198,29 +206,12 @@ func init() {
 			}
 		}
 		if boolTok(cf[1]) {
-			// segment files in creation order, their contents from the recorded writes
-			var order []string
-			content := map[string][]byte{}
-			for _, l := range fsl.log {
-				f := strings.SplitN(l, ":", 3)
-				if f[0] == "cr" && strings.HasSuffix(f[1], ".ts") {
-					order = append(order, f[1])
-					content[f[1]] = nil
-				}
-				if f[0] == "wr" {
-					if _, ok := content[f[1]]; ok {
-						content[f[1]] = append(content[f[1]], bytesTok(f[2])...)
-					}
-				}
+			// every call hls.Muxer made on the file system layer, in order (segment writes, play lists, renames)
+			ops := "none"
+			if len(fsl.log) > 0 {
+				ops = strings.Join(fsl.log, ";")
 			}
-			var segs []string
-			for _, n := range order {
-				segs = append(segs, hexOf(content[n]))
-			}
-			if len(segs) == 0 {
-				segs = []string{"none"}
-			}
-			parts = append(parts, "hls="+strings.Join(segs, ","))
+			parts = append(parts, "hlsops="+ops)
 		}
 		sort.Slice(rtspSubs, func(i, j int) bool { return rtspSubs[i].id < rtspSubs[j].id })
 		for _, r := range rtspSubs {
